@@ -4,5 +4,5 @@ CONSTANTS
   UpCases <- AllUp
   Defects = {"EmptyServerName"}
 SPECIFICATION Spec
-INVARIANTS TypeOK RaceFinal RaceNoMix LastPushWins SelectionIsPick NeverNotReady AuthSound PlainOnlyIfInspector UpSound
+INVARIANTS TypeOK RaceFinal RaceNoMix LastPushWins SelectionIsPick NeverNotReady AuthSound ResumeAsFull PlainOnlyIfInspector UpSound
 CHECK_DEADLOCK FALSE
